@@ -221,6 +221,12 @@ func c04Run(r *sim.Run) {
 			r.Violate("packager-error", "a documented-valid API history failed: %v", err)
 		}
 		x, name = p.Stream(), "packager-stream"
+	} else if t.Chance(80) {
+		p, err := work.RawProduce(r, 3, 3, 2, 4)
+		if err != nil {
+			panic(sim.HarnessAbort{Msg: "raw fragment producer: " + err.Error()})
+		}
+		x, name = p.Stream(), "raw-fragment-stream"
 	} else {
 		cf := c04Bases[t.Draw(len(c04Bases))]
 		x, name = append([]byte(nil), cf.Data...), cf.Name
